@@ -303,8 +303,11 @@ def _get_unused_imports(ast_tree: ast.Module) -> Collection[str]:
                 continue
             names.update(name.id for name in core.walk(string_annotation, ast.Name))
 
+    # "import os.path" binds os, and is in use when os is
+    dotted_imports_in_use = {name for name in imports if name.split(".")[0] in names}
+
     # A star import binds names that cannot be known here, so it is never unused
-    return imports - names - {"*"}
+    return imports - names - dotted_imports_in_use - {"*"}
 
 
 def _get_unused_imports_split(
